@@ -13,6 +13,7 @@ import (
 
 	"verif/bitsim"
 	"verif/mpcl"
+	"verif/mpclgen"
 	"verif/runner"
 	"verif/valpha"
 )
@@ -22,6 +23,8 @@ type cs struct {
 	Fam    string   `json:"family"`
 	Inputs []string `json:"inputs,omitempty"` // replay: one input vector (per argument)
 	Config string   `json:"config,omitempty"` // replay: the configuration that disagreed
+	// NonZero lists arguments that are never given the value zero (raw divisors)
+	NonZero []int `json:"nonzero,omitempty"`
 }
 
 type config struct {
@@ -222,6 +225,11 @@ func runCase(ctx *runner.Ctx, k cs) {
 		limit = 12
 	}
 	exh := vectors(widths, limit, func(v []*big.Int) {
+		for _, nz := range k.NonZero {
+			if nz < len(v) && v[nz].Sign() == 0 {
+				return
+			}
+		}
 		batch = append(batch, append([]*big.Int(nil), v...))
 		if len(batch) == 64 {
 			flush()
@@ -288,6 +296,15 @@ func first(s string) string {
 func opProg(t string, w int, op string) string {
 	T := fmt.Sprintf("%s%d", t, w)
 	switch op {
+	case "raw/", "raw%":
+		// no constant anywhere: the divisor is excluded from the inputs instead (cs.NonZero)
+		return fmt.Sprintf("package main\n\nfunc main(a, b %s) %s {\n\treturn a %s b\n}\n", T, T, op[3:])
+	case "neg":
+		return fmt.Sprintf("package main\n\nfunc main(a, b %s) %s {\n\treturn -a ^ b\n}\n", T, T)
+	case "0-":
+		return fmt.Sprintf("package main\n\nfunc main(a, b %s) (%s, %s) {\n\treturn 0 - a, b - 0\n}\n", T, T, T)
+	case "shl-sub":
+		return fmt.Sprintf("package main\n\nfunc main(a, b %s) %s {\n\treturn (a << %d) - b\n}\n", T, T, 1+w/3)
 	case "/", "%":
 		return fmt.Sprintf("package main\n\nfunc main(a, b %s) %s {\n\treturn a %s (b | 1)\n}\n", T, T, op)
 	case "<", "<=", ">", ">=", "==", "!=":
@@ -306,6 +323,17 @@ var structured = []string{
 	"package main\n\nfunc main(a, b uint8) uint8 {\n\tif a == 0 {\n\t\treturn b\n\t}\n\tif b == 0 {\n\t\treturn a\n\t}\n\treturn (a * 3) + (b * 5) + (a & b) + (a % 7)\n}\n",
 }
 
+// extraOps are operator programs that contain no non-zero constant (a constant keeps the compiler's shared
+// one-wire alive and can mask differences between the optimisation passes).
+var extraOps = []string{"raw/", "raw%", "neg", "0-", "shl-sub"}
+
+func nonZeroFor(op string) []int {
+	if strings.HasPrefix(op, "raw") {
+		return []int{1}
+	}
+	return nil
+}
+
 func work(ctx *runner.Ctx) {
 	mpcl.Quiet()
 	quick := ctx.Quick()
@@ -319,6 +347,9 @@ func work(ctx *runner.Ctx) {
 			}
 			for _, op := range ops {
 				cases = append(cases, cs{Src: opProg(t, w, op), Fam: "op-small"})
+			}
+			for _, op := range extraOps {
+				cases = append(cases, cs{Src: opProg(t, w, op), Fam: "op-small-noconst", NonZero: nonZeroFor(op)})
 			}
 		}
 	}
@@ -348,11 +379,38 @@ func work(ctx *runner.Ctx) {
 				}
 				cases = append(cases, cs{Src: opProg(t, w, op), Fam: "op-switch-width"})
 			}
+			for _, op := range extraOps {
+				if quick && strings.HasPrefix(op, "raw") && w > 33 {
+					continue
+				}
+				cases = append(cases, cs{Src: opProg(t, w, op), Fam: "op-switch-width-noconst", NonZero: nonZeroFor(op)})
+			}
 		}
 	}
 	// (3) structured programs
 	for _, s := range structured {
 		cases = append(cases, cs{Src: s, Fam: "structured"})
+	}
+	// (4) a stride through the statement-level, cast, literal and negation families of the C03 program generator
+	{
+		n := 0
+		stride := 3
+		if quick {
+			stride = 17
+		}
+		genEmit := func(g mpclgen.Gen) {
+			n++
+			if n%stride != 0 {
+				return
+			}
+			fam := g.Fam
+			if i := strings.Index(fam, "."); i > 0 {
+				fam = fam[:i]
+			}
+			cases = append(cases, cs{Src: g.P.Src(), Fam: "gen-" + fam})
+		}
+		mpclgen.Statements(quick, genEmit)
+		mpclgen.Casts(quick, genEmit)
 	}
 	ctx.Note(fmt.Sprintf("case list: %d programs x %d configurations", len(cases), len(configs(quick))))
 	for i, k := range cases {
@@ -382,11 +440,11 @@ func main() {
 	runner.Main(runner.Spec{
 		ID:    "C09",
 		Level: "exploration",
-		Rule: "each program is compiled under 14 configurations {Yao x prune off/on x array-multiplier threshold 0, 8, 21, 64, 10^6} + {GMW x prune off/on x threshold 0, 8} and all circuits are evaluated 64 input vectors per pass on the same inputs: exhaustive when the inputs have <= 12 (thorough 16) bits, else the cross product of a boundary alphabet; programs: every operator {+,-,*,/,%,<,<=,>,>=,==,!=,&,|,^,<<,>>} x {uintW,intW} for W=1..6, multiplication at EVERY width 7..70 (thorough 130), all operators at 16 (21) switch widths, and structured programs (if/early return, loops, arrays, structs, calls). Oracle: every configuration's outputs equal the first configuration's on every vector; pruned circuits have no gate that drives nothing and not more gates than the unpruned one. " +
+		Rule: "each program is compiled under 14 configurations {Yao x prune off/on x array-multiplier threshold 0, 8, 21, 64, 10^6} + {GMW x prune off/on x threshold 0, 8} and all circuits are evaluated 64 input vectors per pass on the same inputs: exhaustive when the inputs have <= 12 (thorough 16) bits, else the cross product of a boundary alphabet; programs: every operator {+,-,*,/,%,<,<=,>,>=,==,!=,&,|,^,<<,>>} x {uintW,intW} for W=1..6, multiplication at EVERY width 7..70 (thorough 130), all operators at 16 (21) switch widths, constant-free variants (a / b, a % b without the zero divisor, -a ^ b, 0 - a, (a << k) - b) at the same widths, structured programs (if/early return, loops, arrays, structs, calls) and a stride through the statement, cast, literal and negation families of the C03 program generator. Oracle: every configuration's outputs equal the first configuration's on every vector; pruned circuits have no gate that drives nothing and not more gates than the unpruned one. " +
 			"evaluations = (input vector, configuration) pairs compared; distinct_nontrivial = programs whose configurations all agreed",
 		Assumptions: []string{
 			"this check is differential (configuration vs configuration); agreement with the language semantics is C03's and C07's subject",
-			"division and modulo use a divisor forced non-zero (b | 1)",
+			"division and modulo use a divisor forced non-zero: (b | 1) in the operator programs, and in the constant-free variants a / b, a % b the zero divisor is left out of the inputs",
 		},
 		Work:           work,
 		Replay:         replay,
